@@ -646,42 +646,56 @@ def rule_map(ctx):
         cs = [c for c in b.calls.values() if type_head(c.impl_self or '') == 'std::collections::HashMap']
         good = len(cs) == 1 and len(cs[0].args) > 1 and ctx.has_field(b.orig_operand(cs[0].args[0]), 'map') and ctx.has_field(b.orig_operand(cs[0].args[1]), 'key') and cs[0].name == {'entry': 'entry'}.get(b.name, b.name)
         R.ob('M5-own-key', b.path, good, 'MapWriter::%s addresses the writer\'s own key in its map' % b.name if good else 'MapWriter::%s does not address self.key with the same-named map operation' % b.name, ctx.where(b), props=P)
-    # M6
+    # M6: the map checker, decided by finite-domain evaluation (as for C12): the value under the key is None / Some(x) / Some(y); every stamp
+    # route must return exactly the current value, and check must answer "consistent" iff the current value equals the stamped one
+    import absint
     mc = [b for b in F.bodies.values() if b.impl_trait == 'pie::ResourceChecker' and b.impl_self == 'pie::resource::map::MapEqualsChecker' and b.kind == 'AssocFn']
+    KEY, STATE, WRITER, SELF = ('atom', 'key'), ('atom', 'state'), ('atom', 'writer'), ('atom', 'checker')
+
+    def world(cur):
+        def extern(call, argv):
+            if call.qname == 'pie::Resource::read' and len(argv) == 2 and argv[0] == KEY and argv[1] == STATE:
+                return ('res', 'Ok', cur)
+            if call.name == 'get' and 'MapWriter' in (call.impl_self or '') and argv and argv[0] == WRITER:
+                return cur
+            if call.qname == 'std::collections::HashMap::get':
+                raise absint.Undecided('direct map access in the checker')
+            return None
+        return extern
+    curs = [('opt', None), ('opt', ('atom', 'x')), ('opt', ('atom', 'y'))]
     for b in mc:
         if b.name in ('stamp', 'stamp_reader', 'stamp_writer'):
-            maps = [c for c in b.calls.values() if c.qname == 'std::option::Option::map']
-            good = len(maps) == 1
-            src = ''
-            if good:
-                so = b.orig_operand(maps[0].args[0])
-                if b.name == 'stamp':
-                    good = any(b.calls[o.key].qname == 'pie::Resource::read' for o in so if o.kind == 'call') and all(q.kind == 'arg' and q.key == 2 for c in b.calls.values() if c.qname == 'pie::Resource::read' for q in b.orig_operand(c.args[0]))
-                elif b.name == 'stamp_reader':
-                    good = all(o.kind == 'arg' and o.key == 3 for o in so)
-                else:
-                    good = any(b.calls[o.key].name == 'get' for o in so if o.kind == 'call') and all(q.kind == 'arg' and q.key == 3 for c in b.calls.values() if c.name == 'get' for q in b.orig_operand(c.args[0]))
-                clos = F.closures_of(b)
-                good = good and len(clos) == 1 and any(c.qname == 'std::clone::Clone::clone' for c in clos[0].calls.values())
-            R.ob('M6-route', b.path, good, '%s clones the value currently stored under the key (or None)' % b.name if good else '%s does not stamp the current value of the key' % b.name, ctx.where(b), props=P)
+            good, why, st = True, '', None
+            for cur in curs[:2]:
+                args = {'stamp': [SELF, KEY, STATE], 'stamp_reader': [SELF, KEY, cur], 'stamp_writer': [SELF, KEY, WRITER]}[b.name]
+                try:
+                    r = absint.evaluate(F, b, args, extern=world(cur))
+                except absint.Undecided as e:
+                    good, why, st = False, 'UNDECIDED: %s' % e, 'UNDECIDED'
+                    break
+                if r != ('res', 'Ok', cur):
+                    good, why = False, '%s does not stamp the current value of the key: with %s stored it returns %s' % (b.name, 'nothing' if cur[1] is None else 'a value', r)
+                    break
+            R.ob('M6-route', b.path, good, '%s returns exactly the value currently stored under the key (or None)' % b.name if good else why, ctx.where(b), props=P, status=st)
         elif b.name == 'check':
-            nes = [c for c in b.calls.values() if c.qname in ('std::cmp::PartialEq::ne', 'std::cmp::PartialEq::eq')]
-            good = len(nes) == 1
-            if good:
-                c = nes[0]
-                a0 = b.orig_operand(c.args[0])
-                a1 = b.orig_operand(c.args[1])
-                reads = any(b.calls[o.key].qname == 'pie::Resource::read' for o in a0 | a1 if o.kind == 'call')
-                stamp = any(o.kind == 'arg' and o.key == 4 for o in a0 | a1)
-                good = reads and stamp
-                want = c.qname.endswith('::ne')
-                somes = [d[1] for l, ds in b.defs.items() for d in ds if d[0] == 'stmt' and d[3]['k'] == 'aggr' and d[3]['ak'].get('variant') == 'Some' and 'Option' in d[3]['ak'].get('adt', '')]
-                for sb in somes:
-                    req = b.edges_required_for(sb)
-                    if not any(gd.kind == 'bool' and gd.truth() is want and c.bb in ctx.base_call_bbs(gd.origins) for gd in req):
+            good, why, st = True, '', None
+            for cur in curs:
+                for stamp in curs[:2]:
+                    try:
+                        r = absint.evaluate(F, b, [SELF, KEY, STATE, stamp], extern=world(cur))
+                    except absint.Undecided as e:
+                        good, why, st = False, 'UNDECIDED: %s' % e, 'UNDECIDED'
+                        break
+                    same = absint.v_eq(cur, stamp)
+                    consistent = r[0] == 'res' and r[1] == 'Ok' and r[2] == ('opt', None)
+                    reported = r[0] == 'res' and r[1] == 'Ok' and r[2][0] == 'opt' and r[2][1] is not None
+                    if not (consistent or reported) or consistent != same:
                         good = False
-                good = good and bool(somes)
-            R.ob('M6-check', b.path, good, 'inconsistent exactly when the current value differs from the stamped one' if good else 'check polarity / operands are not `current != stamp`', ctx.where(b), props=P)
+                        why = 'check answers %s for current=%s stamp=%s (must be consistent exactly when they are equal)' % ('consistent' if consistent else r, cur, stamp)
+                        break
+                if not good:
+                    break
+            R.ob('M6-check', b.path, good, 'inconsistent exactly when the current value differs from the stamped one (6 cases evaluated)' if good else why, ctx.where(b), props=P, status=st)
     R.floor('M6', 'MapEqualsChecker methods', len(mc), 4, props=P)
 
 
